@@ -41,7 +41,10 @@ def main():
     except common.Broken as e:
         print("ANALYSIS-BROKEN property=%s %s" % (a.prop, e))
         code = 2
-    common.cache_prune()
+    try:
+        common.cache_prune()
+    except Exception:
+        pass            # housekeeping must never change the verdict
     return code
 
 
